@@ -197,6 +197,9 @@ def run(tier="quick", replay=None):
             "auto: predicate matches %d std::time calls outside the compile call graph (launch_tool --time)" % len(ctl),
             "positive control lost: no std::time call matched anywhere; the ambient predicate may be vacuous")
 
+    # ---------------- R05.g quoted data is never renamed ---------------------------------------
+    check_quoted_not_renamed(prog, R)
+
     # ---------------- R05.a / R05.b order taint ------------------------------------------------
     ordertaint.check(prog, R, tier, compile_reach)
     return R.finalize()
@@ -312,3 +315,43 @@ def check_guard(prog, R):
                        "%s passes the int-mode guard to %s: its Drop (mode restore) may never run / run out of order" % (f.path, c), fn=f.path)
     R.ob("R05.e.iii", "R05.e.iii|scan", "whole crate", "auto: guard type in no ADT field, no return type (other than new), "
          "no forget/ManuallyDrop/Box/Rc (scanned %d bodies, %d ADTs)" % (n, len(prog.adts)))
+
+
+def check_quoted_not_renamed(prog, R):
+    """Generated names must never reach literal data: a `BodyForm::Quoted` payload may not be taken from a
+    name -> name rename map (HashMap<Vec<u8>, Vec<u8>>::get) nor from gensym.  Quoted forms are emitted verbatim,
+    so a renamed quoted atom puts `x_$_N` (N = process-wide counter) into the compiled program."""
+    n = 0
+    for f in sorted(prog.fns.values(), key=lambda f: f.path):
+        fl = None
+        for bb, i, s in f.stmts():
+            rv = s["rv"]
+            if not (rv["k"] == "agg" and rv.get("adt") == "compiler::comptypes::BodyForm" and rv.get("variant") == "Quoted"):
+                continue
+            in_rename = f.root.startswith("compiler::rename::")
+            if fl is None:
+                fl = Flow(f)
+            l = op_local(rv["ops"][0])
+            srcs = []
+            if l is not None:
+                for x in fl.back([l]):
+                    for b2, t2 in fl.call_defs.get(x, []):
+                        c = callee_of(t2) or ""
+                        g = t2.get("gargs", [])
+                        if c == "compiler::gensym::gensym":
+                            srcs.append("gensym")
+                        if c.endswith("HashMap::<K, V, S>::get") or c.endswith("HashMap::<K, V, S, A>::get"):
+                            if len(g) >= 2 and g[0] == "std::vec::Vec<u8>" and g[1] == "std::vec::Vec<u8>":
+                                srcs.append("rename-map lookup")
+            if in_rename:
+                n += 1
+            key = "R05.g|%s|Quoted" % f.path
+            if srcs:
+                R.viol("R05.g", key, "%s:%s" % (f.file, s.get("line")),
+                       "%s builds quoted (literal) data from a %s: a quoted atom that happens to be spelled like a variable in "
+                       "scope is replaced by its generated name `x_$_N`, which is emitted verbatim and changes with the "
+                       "process-wide name counter" % (f.path, "/".join(sorted(set(srcs)))), fn=f.path)
+            elif in_rename:
+                R.ob("R05.g", key + "#%d" % n, "%s:%s" % (f.file, s.get("line")),
+                     "auto: quoted payload is carried over unchanged (no rename-map lookup, no gensym)", fn=f.path)
+    R.floor("R05.g", "BodyForm::Quoted constructions in the renamer", n, 1)
